@@ -137,7 +137,13 @@ static void revoked_chunks(int len, int cpu)
 	g_strict_free = 1;
 	for (int level = 0; level <= 3; level++)
 		for (int ci = 0; ci < 8; ci++)
-			for (int co = 0; co < 7; co++) {
+			for (int co = 0; co < 7; co++)
+			for (int fpps = 0; fpps < 6; fpps++) {
+				/* fp: flush kind per input chunk: 0 the same on every chunk, 1 alternating NO_FLUSH / FULL_FLUSH, 2 NO, SYNC, FULL cycle.
+				 * ps: 0 every chunk ENDS at an inaccessible page, 1 odd chunks START right behind one (a read in front of the chunk faults) */
+				int fp = fpps % 3, ps = fpps / 3;
+				if (fpps && !((ci == 1 || ci == 5 || ci == 6 || ci == 7) && (co == 1 || co == 5 || co == 6)))
+					continue;
 				if (len > 1000 && (cins[ci] < 8 || couts[co] < 8) && cins[ci] * couts[co] < 600)
 					continue;
 				if (nfail > 20 || v_deadline_hit())
@@ -145,7 +151,8 @@ static void revoked_chunks(int len, int cpu)
 				static struct isal_zstream *s;
 				static uint8_t *lb;
 				if (!s) { s = g_persist(sizeof *s, G_END); lb = g_persist(ISAL_DEF_LVL3_MIN, G_END); }
-				snprintf(key, sizeof key, "revoked-chunks isal_deflate level=%d cin=%d cout=%d flush=%s cpu=%s input=%s", level, cins[ci], couts[co], flush_name[(ci + co) % 3], cpu_level_name[cpu], in_name);
+				snprintf(key, sizeof key, "revoked-chunks isal_deflate level=%d cin=%d cout=%d flush=%s%s cpu=%s input=%s", level, cins[ci], couts[co], fp == 0 ? flush_name[(ci + co) % 3] : fp == 1 ? "NO/FULL alternating" : "NO,SYNC,FULL cycle",
+					 ps ? " odd-chunks-start-flush" : "", cpu_level_name[cpu], in_name);
 				size_t ip = 0, ol = 0;
 				int r = 0, calls = 0;
 				if (!V_TRY()) {
@@ -159,12 +166,18 @@ static void revoked_chunks(int len, int cpu)
 				s->avail_in = 0;
 				uint8_t *in = NULL;
 				size_t k = 0;
+				int chunk_no = 0;
 				while (s->internal_state.state != ZSTATE_END && calls++ < 400000) {
 					if (s->avail_in == 0) {
 						/* the previous chunk was consumed: its mapping is recycled (= made inaccessible) before the next call */
 						k = len - ip < (size_t)cins[ci] ? len - ip : (size_t)cins[ci];
 						g_reset();
-						in = g_alloc(k, G_END);
+						in = g_alloc(k, ps && (chunk_no & 1) ? G_START : G_END);
+						if (fp == 1)
+							s->flush = chunk_no & 1 ? FULL_FLUSH : NO_FLUSH;
+						else if (fp == 2)
+							s->flush = chunk_no % 3;
+						chunk_no++;
 						memcpy(in, IN + ip, k);
 						s->next_in = in; s->avail_in = k;
 						ip += k;
